@@ -1167,8 +1167,18 @@ fn iofault_facts(plan: &Plan, rr: &RunResult) -> Vec<(&'static str, serde_json::
         _ => ("?", 0),
     };
     let op_failed = rr.incs.first().map(|i| i.events.iter().any(|e| e.t == "ret" && e.op == Some(op_id) && e.res.as_ref().map(|r| r.k != "ok").unwrap_or(false))).unwrap_or(false);
+    // did the planning phase of the failing batch seal the writer's block and switch to a new one?
+    let batch_switched_block = rr.incs.first().map(|i| i.events.iter().any(|e| e.t == "probe" && e.op == Some(op_id) && e.msg.as_deref() == Some("batch_plan_switches_block"))).unwrap_or(false);
+    // sync-type failures leave already written data in place; the others are failures of the writes themselves
+    let failure_class = match (name, fault_kind) {
+        ("fail_io", "Flush") | ("fail_io", "FileFsync") | ("fail_io", "DirFsync") => "sync",
+        ("fail_io", _) => "allocation",
+        _ => "write",
+    };
     vec![
         ("fault", serde_json::json!(name)),
+        ("batch_switched_block", serde_json::json!(batch_switched_block)),
+        ("failure_class", serde_json::json!(failure_class)),
         ("fault_kind", serde_json::json!(fault_kind)),
         ("faulted_op", serde_json::json!(faulted_op)),
         ("op_failed", serde_json::json!(op_failed)),
@@ -1233,6 +1243,27 @@ impl C04Scenario {
                 }
                 let mut plan = base.clone();
                 plan.incarnations[0].faults = vec![Fault { sel: Sel::InOp { op, nth }, act }];
+                // what a client does after a failed batch: it retries - the whole batch, a prefix of it, or its
+                // first entry alone (the same sizes land on the same offsets the failed attempt used)
+                if let Some(OpKind::BatchAppend { inst, topic, lens }) = ops.get(&op).map(|o| o.kind.clone()) {
+                    if lens.len() >= 2 && rng.chance(0.6) {
+                        let next_id = ops.keys().max().copied().unwrap_or(0) + 1;
+                        let retry = match rng.below(3) {
+                            0 => OpKind::Append { inst, topic, len: lens[0] },
+                            1 => OpKind::BatchAppend { inst, topic, lens: lens[..rng.range(1, lens.len() as u64) as usize].to_vec() },
+                            _ => OpKind::BatchAppend { inst, topic, lens: lens.clone() },
+                        };
+                        'ins: for ph in plan.incarnations[0].phases.iter_mut() {
+                            for th in ph.threads.iter_mut() {
+                                if let Some(pos) = th.iter().position(|o| o.id == op) {
+                                    th.insert(pos + 1, Op { id: next_id, kind: retry });
+                                    out.stat("reach.retry_after_faulted_batch", 1);
+                                    break 'ins;
+                                }
+                            }
+                        }
+                    }
+                }
                 // the fault-free run took base_steps; a run that needs far more than that is
                 // spinning, and the default budget of 3M steps costs half a minute of wall clock
                 plan.incarnations[0].sched.step_budget = (base_steps * 40).max(200_000);
